@@ -494,7 +494,14 @@ theorem applySub_ctx_full (kp : Nat → Bool) (st : St) (a : Nat) (b : Int) (s :
       | some pn =>
         obtain ⟨ps, next⟩ := pn
         obtain ⟨h1, h2, h3, h4⟩ := hx ps next rfl
-        refine Safe.bind (chain3Input_safe kp st.seq look next _ (Int.le_refl _)) ?_
+        have hp0 : Safe (fun _ => True) (if look.isEmpty then (pure next : Outcome Nat)
+            else skipFwd kp (st.seq.drop next) next st.seq.length 0) := by
+          split
+          · trivial
+          · exact skipFwd_drop_safe kp st.seq next _ 0 (Int.le_refl _)
+        refine Safe.bind hp0 ?_
+        intro p0 _ _
+        refine Safe.bind (chain3Input_safe kp st.seq look p0 _ (Int.le_refl _)) ?_
         intro y _ _
         cases y with
         | none => trivial
